@@ -6,12 +6,13 @@ AREAS_ADD = {
         # branch ids of Corr/Run_receiver.v lbranch (rbranches_all):
         # 1/2 listing (later / first), 3 listing fails, 4-7 per name in the listing (ignored / unparsable /
         # other kind / snapshot), 10-13 notification loop (no change / own skipped / existing / new downloader),
+        # 14 own instance notified by a poll because the own snapshot last notified about has been ignored,
         # 20 wake, 21-23 check (no entry / already processed / download), 24 download token, 25 load ok,
         # 26 load of a vanished blob, 27 transient load failure, 28 decompress token, 29 decode ok,
         # 30 decode ok over a not yet taken snapshot, 31 decode failure, 32 retry after sleep, 33 Next,
         # 34 Next with nothing ready, 35 Close, 36 publish, 37 delete, 38/39 loop bottom (done / waiting),
         # 40/41 climit.New with limit < 1 / >= 1
-        "branches": [1, 2, 3, 4, 5, 6, 7, 10, 11, 12, 13, 20, 21, 22, 23, 24, 25, 26, 27, 28, 29, 30, 31, 32,
+        "branches": [1, 2, 3, 4, 5, 6, 7, 10, 11, 12, 13, 14, 20, 21, 22, 23, 24, 25, 26, 27, 28, 29, 30, 31, 32,
                      33, 34, 35, 36, 37, 38, 39, 40, 41],
         "shard": 150,
         # (index of the first action after which no model state matches, what the model could have observed)
@@ -52,9 +53,11 @@ PROPS_ADD = {
             "further List failures and no Load failures of blobs that exist (loads of vanished blobs are covered)",
             "delivery is claimed for every instance other than the own one; for the own instance only as long as "
             "no poll (includingOwn=false) has skipped a not yet notified own name",
-            "run-once: C16_once_exits holds only as _partial (hypothesis: the own-instance case above); "
-            "C16_once_exits_refuted is the own-instance corrupt-newest wedge, replayed on the real Sync "
-            "(oracle clause once-exits-own-corrupt)",
+            "run-once: C16_once_exits is proved for histories in which, while the own instance is still waited "
+            "for, nobody stores a blob under the own instance's name and nobody deletes the own snapshot the receiver "
+            "is after (Receiver/Own.v calm); without that assumption C16_once_exits_unconditional_refuted (newest own "
+            "snapshot cleaned during start-up and the next-newest undecodable). The harness oracle once-exits is "
+            "evaluated on histories satisfying the assumption only",
             "limits: any configured integers (values < 1 count as 1); any number of instances",
         ],
         "trusted_base": _RECV_TRUST,
